@@ -128,6 +128,33 @@ def natural_loops(cfg):
     return loops
 
 
+def _step_vars(a):
+    """the variables of stepPattern by what they are, not by what they are called: the node parameter, the score that is returned, boolean flags"""
+    import re as _re
+    ctx = {p['id'] for p in a['params'] if _re.search(r'XalanNode\s*\*', p.get('ty') or '')}
+    score = set()
+    for x in walk(a['body']):
+        if x.get('k') == 'Return' and x.get('e') is not None:
+            e = strip_casts(x['e'])
+            if e is not None and e.get('k') == 'Ref' and e.get('d') == 'local':
+                score.add(e.get('id'))
+        if x.get('k') == 'Decl':
+            for v in x.get('vars', []):
+                if 'eMatchScore' in (v.get('ty') or ''):
+                    score.add(v['id'])
+    return ctx, score
+
+
+def _is_var(e, ids):
+    e = strip_casts(e)
+    return e is not None and e.get('k') == 'Ref' and e.get('id') in ids
+
+
+def _is_null(e):
+    e = strip_casts(e)
+    return e is not None and (e.get('cv') == 0 or e.get('k') == 'Nullptr' or pp(e) == '0')
+
+
 def r3_ancestor_search(res, facts):
     """'a[p]//b': SOME ancestor must pass node test and predicates, so the walk up the ancestors may stop with a positive score only
     at an ancestor whose predicates have been evaluated inside the loop; a predicate check after the loop cannot resume the walk."""
@@ -136,6 +163,7 @@ def r3_ancestor_search(res, facts):
                   'leaves with a positive score only on paths that evaluated doStepPredicate for that ancestor in the same iteration; every other exit is '
                   '"no more ancestors" or a failed verdict; the post-switch predicate evaluation is switched off for these cases', floor=3)
     a = facts.asts('XPath::stepPattern')[0]
+    ctx_ids, score_ids = _step_vars(a)
     cfg = CFG(a)
     loops = natural_loops(cfg)
     # nodes belonging to the eMATCH_ANY_ANCESTOR case group: reachable from its CaseLabel up to the switch exit
@@ -162,7 +190,7 @@ def r3_ancestor_search(res, facts):
         return n.ast is not None and any((c.get('n') or '') == 'doStepPredicate' for c in calls(n.ast))
 
     def is_climb(n):
-        return n.ast is not None and n.kind == 'stmt' and n.ast.get('k') == 'Bin' and n.ast['op'] == '=' and pp(strip_casts(n.ast['lhs'])) == 'context' and any((c.get('n') or '') in ('getParentOfNode', 'getParentNode') for c in calls(n.ast['rhs']))
+        return n.ast is not None and n.kind == 'stmt' and n.ast.get('k') == 'Bin' and n.ast['op'] == '=' and _is_var(n.ast['lhs'], ctx_ids) and any((c.get('n') or '') in ('getParentOfNode', 'getParentNode') for c in calls(n.ast['rhs']))
 
     def is_verdict(n):
         return n.ast is not None and any(c['k'] == 'OpCall' and c['op'] == '()' and 'NodeTester' in short(c.get('cls') or '') for c in calls(n.ast))
@@ -189,12 +217,11 @@ def r3_ancestor_search(res, facts):
                 site = 'stepPattern any-ancestor loop: exit after %s%s' % (txt[:50], '' if eff is None else (' [%s]' % ('true' if eff else 'false')))
                 fail_exit = False
                 if core is not None and core.get('k') == 'Bin' and core['op'] in ('==', '!='):
-                    l, rr = pp(strip_casts(core['lhs'])), pp(strip_casts(core['rhs']))
-                    pair = {l, rr}
+                    l, rr = core['lhs'], core['rhs']
                     is_eq = (core['op'] == '==') == eff
-                    if pair == {'context', '0'} and is_eq:
+                    if is_eq and ((_is_var(l, ctx_ids) and _is_null(rr)) or (_is_var(rr, ctx_ids) and _is_null(l))):
                         fail_exit = 'no more ancestors'
-                    elif pair == {'eMatchScoreNone', 'score'} and is_eq:
+                    elif is_eq and ((_is_var(l, score_ids) and pp(strip_casts(rr)).endswith('eMatchScoreNone')) or (_is_var(rr, score_ids) and pp(strip_casts(l)).endswith('eMatchScoreNone'))):
                         fail_exit = 'failed verdict'
                 if fail_exit:
                     r3.ok(site, fail_exit)
@@ -206,11 +233,14 @@ def r3_ancestor_search(res, facts):
     if found == 0:
         r3.violation('stepPattern any-ancestor case', 'no loop that climbs the ancestors and applies the node test', common.file_line(a, target.ast))
     # fDoPredicates protocol: the case switches the common predicate evaluation off, and that evaluation is guarded by the flag
-    flag_off = [n for n in cfg.nodes if n.id in region and n.ast is not None and n.kind == 'stmt' and n.ast.get('k') == 'Bin' and n.ast['op'] == '=' and pp(strip_casts(n.ast['lhs'])) == 'fDoPredicates' and strip_casts(n.ast['rhs']).get('cv') == 0]
+    flag_off = [n for n in cfg.nodes if n.id in region and n.ast is not None and n.kind == 'stmt' and n.ast.get('k') == 'Bin' and n.ast['op'] == '=' and
+                (strip_casts(n.ast['lhs']) or {}).get('k') == 'Ref' and (strip_casts(n.ast['lhs']) or {}).get('d') == 'local' and 'bool' in ((strip_casts(n.ast['lhs']) or {}).get('ty') or 'bool')
+                and strip_casts(n.ast['rhs']).get('cv') == 0]
+    flag_ids = {strip_casts(n.ast['lhs']).get('id') for n in flag_off}
     post = [n for n in cfg.nodes if is_pred(n) and n.id in common_nodes]
     must = common.must_conds(cfg)
     if post:
-        guarded = all(any(pp(common.norm_atom(at, br)[0]) == 'fDoPredicates' and common.norm_atom(at, br)[1] for at, br in must.get(n.id, [])) for n in post)
+        guarded = all(any(_is_var(common.norm_atom(at, br)[0], flag_ids) and common.norm_atom(at, br)[1] for at, br in must.get(n.id, [])) for n in post)
         if flag_off and guarded:
             r3.ok('stepPattern: common predicate evaluation is under fDoPredicates, which the any-ancestor case clears')
         elif not flag_off and not guarded:
@@ -347,6 +377,7 @@ def r5_backtracking(res, facts):
     r = res.rule('C09-R5', "stepPattern, '//' inside a path: the ancestor chosen for a step followed by '//' must depend on whether the steps to its left match there (no commitment to the "
                  "first ancestor that passes the step's own test), and the root step must accept only the document node as the parent of its right neighbour", floor=2)
     a = facts.asts('XPath::stepPattern')[0]
+    ctx_ids, score_ids = _step_vars(a)
     cfg = CFG(a)
     loops = natural_loops(cfg)
     labels = [n for n in cfg.nodes if n.ast is not None and n.ast.get('k') == 'CaseLabel']
@@ -361,7 +392,8 @@ def r5_backtracking(res, facts):
         return {i for i in cfg.reachable_avoiding([tgt[0]], lambda m: m.id in common_nodes or m.id in others) if i not in common_nodes}, tgt[0]
 
     def climbs(body):
-        return any(cfg.nodes[i].ast is not None and cfg.nodes[i].kind == 'stmt' and 'getParentOfNode' in pp(cfg.nodes[i].ast) and pp(cfg.nodes[i].ast).startswith('(context =') for i in body)
+        return any(cfg.nodes[i].ast is not None and cfg.nodes[i].kind == 'stmt' and cfg.nodes[i].ast.get('k') == 'Bin' and cfg.nodes[i].ast.get('op') == '=' and
+                   _is_var(cfg.nodes[i].ast['lhs'], ctx_ids) and 'getParentOfNode' in pp(cfg.nodes[i].ast) for i in body)
     # recursion structure: the call for the steps to the right comes before the switch, so the steps to the left are the callers
     sw = [n for n in cfg.nodes if n.ast is not None and n.ast.get('k') == 'SwitchCond']
     rec = [n for n in cfg.nodes if n.ast is not None and n.kind == 'stmt' and any((c.get('n') or '') == 'stepPattern' for c in calls(n.ast))]
